@@ -1050,10 +1050,12 @@ def check_run(problem, run, r):
     ref0 = ref_eval(problem, vals0, names)
     if not close(L0, ref0['f'], T2 * ref0['scale_f']):
         out.append(Finding('init-stated', 'results.data.initLogLike is not the stated log likelihood at the starting values', ref0['f'], L0))
-    # --- (4) stationarity when convergence is reported: projected gradient of the maximisation problem
+    # --- (4) stationarity when convergence is reported: projected gradient of the maximisation problem P(x + g) - x,
+    #     relative as in the stopping rule of biogeme_optimization: |pg_i| max(|x_i|, 1) / max(|f(x*)|, |f(x0)|, 1)
+    #     (the rule uses tolerance eps^(1/4) ~ 1.2e-4 by default; 1e-3 is accepted here)
     if r['convergence']:
         use_b = alg in SUPPORTS_BOUNDS
-        worst = 0.0
+        worst = strict = 0.0
         pgs = []
         for xi, gi, lb, ub in zip(x, g, lbs, ubs):
             y = xi + gi
@@ -1063,12 +1065,15 @@ def check_run(problem, run, r):
                 y = min(y, ub)
             pg = y - xi
             pgs.append(pg)
-            worst = max(worst, abs(pg) * max(abs(xi), 1.0) / max(abs(L), 1.0))
+            worst = max(worst, abs(pg) * max(abs(xi), 1.0) / max(abs(L), abs(L0), 1.0))
+            strict = max(strict, abs(pg) * max(abs(xi), 1.0) / max(abs(L), 1.0))
         info['relpg'] = worst
+        info['relpg_strict'] = strict
         if worst > 1e-3:
             out.append(Finding('stationarity', f'convergence is reported by {alg} but the relative projected gradient is {worst:.3g} > 1e-3',
                                'gradient ~ 0 in every direction not blocked by an active bound',
-                               {'estimates': x, 'g': g, 'projected_gradient': pgs, 'bounds': list(zip(lbs, ubs)), 'cause': r.get('cause')}))
+                               {'estimates': x, 'g': g, 'projected_gradient': pgs, 'bounds': list(zip(lbs, ubs)), 'cause': r.get('cause'),
+                                'logLike': L, 'initLogLike': L0}))
     # --- (5) write-back
     before, after = r['leaves_before'], r['leaves_after']
     est = dict(zip(names, x))
@@ -1130,8 +1135,15 @@ def evaluate(ctx, st, problems, runs, results):
             ctx.violation(f'C07/estimate/{f.clause}/{run["algorithm"]}', f.what, witness(p, [run]), f.expected, f.observed, HOW)
     # --- (6) agreement of the maxima: all converged runs that solve the same problem
     groups = {}
+    skipped = 0
     for i, (run, info) in enumerate(zip(runs, infos)):
         if not info.get('converged') or 'L' not in info:
+            continue
+        # only runs that are stationary to 1e-4 relative to |L(x*)| itself are compared: with the curvature the generator
+        # guarantees (smallest eigenvalue of -H >= 0.4) their distance to the maximum is < 1e-6 relative, so that the
+        # 1e-5 threshold is safe; runs stopped by the optimiser's looser normalisation (|f(x0)| >> |f(x*)|) are skipped
+        if info.get('relpg_strict', 1.0) > 1e-4:
+            skipped += 1
             continue
         bk = run['tags'].get('bounds_kind')
         g = run['tags'].get('group')
@@ -1156,7 +1168,7 @@ def evaluate(ctx, st, problems, runs, results):
                           witness(p, [runs[lo], runs[hi]]), 'equal maxima (relative 1e-5)',
                           {'low': {'algorithm': runs[lo]['algorithm'], 'logLike': infos[lo]['L'], 'estimates': infos[lo]['x']},
                            'high': {'algorithm': runs[hi]['algorithm'], 'logLike': infos[hi]['L'], 'estimates': infos[hi]['x']}}, HOW)
-    return {'converged': nconv, 'per_algorithm': per_alg, 'agreement_groups': sum(1 for v in groups.values() if len(v) >= 2),
+    return {'converged': nconv, 'agreement_skipped_loosely_converged': skipped, 'per_algorithm': per_alg, 'agreement_groups': sum(1 for v in groups.values() if len(v) >= 2),
             'max_relative_disagreement': worst}
 
 
@@ -1204,7 +1216,7 @@ def stream_estimate(ctx, n_problems=None, only=None, name='estimate'):
                         r2['tags'] = dict(run.get('tags') or {})
                         r2['tags']['group'] = pid + '/' + str(r2['tags'].get('bounds_kind')) + '/' + json.dumps(r2['params'], sort_keys=True)[:0]
                         runs.append(r2)
-        npb = n_problems if n_problems is not None else ctx.n(14, 160)
+        npb = n_problems if n_problems is not None else ctx.n(14, 150)
         gen = {}
         for k in range(npb):
             gen[f'p{k}'] = gen_problem(rng)
@@ -1217,3 +1229,174 @@ def stream_estimate(ctx, n_problems=None, only=None, name='estimate'):
     if only is None and runs and summary['converged'] < 0.5 * len(runs) and not ctx.violations:
         ctx.stream_broken(name, f'only {summary["converged"]} of {len(runs)} estimations report convergence: the generated problems are degenerate')
     return problems, runs, results
+
+
+# ============================================================================ stream `plumbing`
+SETTING_CHOICES = {
+    'max_iterations': [37, 50, 123, 400, 1000],
+    'initial_radius': [0.5, 1.0, 2.0, 4.0],
+    'dogleg': [True, False],
+    'enlarging_factor': [2.0, 5.0, 10.0],
+    'second_derivatives': [0.0, 0.5, 1.0],
+    'infeasible_cg': [True, False],
+    'tolerance': [2.0 ** -13, 2.0 ** -12, 1.0e-4],
+    'steptol': [2.0 ** -17, 1.0e-5],
+}
+
+
+def coq_assoc(d):
+    return coq_list([f'({coq_string(k)}, {coq_string(v)})' for k, v in d])
+
+
+PLUMB_CHK = (
+    'Definition chk (c : string * bool * list (string * string) * (string * bool * list (string * string)) * list (string * string)) : bool :=\n'
+    "  let '(alg, cx, settings, (obs_rt, obs_hasb, obs_kw), obs_fn) := c in\n"
+    '  match expected_call alg cx settings with\n'
+    '  | Some (rt, fb, kws) =>\n'
+    '      String.eqb rt obs_rt && Bool.eqb fb obs_hasb &&\n'
+    '      forallb (fun kv => String.prefix "expr:" (snd kv) ||\n'
+    '                         match assoc (fst kv) obs_kw with Some t => String.eqb t (snd kv) | None => false end) kws &&\n'
+    '      forallb (fun kv => existsb (fun e => String.eqb (fst e) (fst kv)) kws) obs_kw\n'
+    '  | None => false\n'
+    '  end &&\n'
+    '  forallb (fun kw => match assoc (snd kw) function_parameters, assoc (fst kw) obs_fn with\n'
+    '                     | Some src, Some t => String.eqb t (token_of settings src)\n'
+    '                     | _, _ => false end) function_parameters_plumbing.\n')
+
+
+def stream_plumbing(ctx, n_per_alg=None, with_model=True):
+    st = ctx.stream('plumbing', 'estimate() with the external routines replaced by recording spies (which then run the real routine): '
+                    'every algorithm name x random values of the 8 parameters of sections [SimpleBounds]/[TrustRegion]; the routine called, '
+                    'whether it receives the bounds, the keyword arguments it receives and the (epsilon, steptol) given to '
+                    'FunctionToMinimize are compared inside Coq with `expected_call` computed from the generated tables; the bounds and '
+                    'the starting point handed over are compared exactly with the declared ones; all cases non-trivial; distinct by '
+                    '(algorithm, settings, bounds)')
+    rng = ctx.sub_rng('plumbing')
+    algorithms = algorithm_names()
+    problems = {'q0': gen_problem(rng), 'q1': gen_problem(rng)}
+    runs = []
+    for a in algorithms:
+        for _ in range(n_per_alg or ctx.n(3, 25)):
+            pid = rng.choice(sorted(problems))
+            p = problems[pid]
+            bk = rng.choice(BOUND_KINDS)
+            bounds = gen_bounds(rng, p, bk)
+            start = gen_start(rng, p, bounds, rng.choice(START_KINDS))
+            settings = {k: rng.choice(v) for k, v in SETTING_CHOICES.items()}
+            runs.append(make_run(pid, p, bounds, start, a, rng.random() < 0.5, None, settings, {'bounds_kind': bk, 'group': pid}))
+    results = run_impl(ctx, problems, runs, spy=True)
+    items, icases, ires = [], [], []
+    for run, r in zip(runs, results):
+        case = {'algorithm': run['algorithm'], 'settings': run['settings'], 'params': run['params'], 'pid': run['pid']}
+        st.record(case, nontrivial=True)
+        if not r.get('ok'):
+            ctx.violation(f'C07/estimate/exception/{run["algorithm"]}', f'estimate() raised {r.get("error", r.get("crash"))}',
+                          witness(problems[run['pid']], [run]), 'estimation results', {'error': r.get('error'), 'trace': r.get('trace')}, HOW)
+            continue
+        calls = [c for c in r['calls'] if c['routine'] != 'FunctionToMinimize.__init__']
+        fns = [c for c in r['calls'] if c['routine'] == 'FunctionToMinimize.__init__']
+        if len(calls) != 1 or len(fns) != 1:
+            st.disagree(case, 'exactly one external routine called, one objective built', r['calls'])
+            continue
+        c = calls[0]
+        names = r['betaNames']
+        spec = {p['name']: p for p in run['params']}
+        declared = [[spec[n]['lb'], spec[n]['ub']] for n in names]
+        x0 = [spec[n]['init'] for n in names]
+        if c['has_bounds'] and [[None if a is None else h2f(a), None if b is None else h2f(b)] for a, b in c['bounds']] != \
+                [[h2f(a), h2f(b)] for a, b in declared]:
+            st.disagree(case, {'bounds handed to the routine': declared}, c['bounds'], 'the model hands over id_manager.bounds unchanged')
+        if c.get('start') is not None and [h2f(v) for v in c['start']] != [h2f(v) for v in x0]:
+            st.disagree(case, {'starting point': x0}, c['start'], 'the model starts the routine at the start values')
+        if c['routine'] == 'scipy.optimize.minimize' and c.get('jac') != 'True':
+            st.disagree(case, 'jac=True', c.get('jac'))
+        if with_model:
+            settings = [(k, value_token(v)) for k, v in sorted(run['settings'].items())]
+            obs = f'({coq_string(c["routine"])}, {coq_bool(c["has_bounds"])}, {coq_assoc(sorted(c["kwargs"].items()))})'
+            items.append(f'({coq_string(run["algorithm"])}, {coq_bool(r["is_model_complex"])}, {coq_assoc(settings)}, {obs}, '
+                         f'{coq_assoc(sorted(fns[0]["kwargs"].items()))})')
+            icases.append(case)
+            ires.append({'call': c, 'objective': fns[0]})
+    if with_model and items:
+        files = {}
+        Bsz = 120
+        hdr = ('From Coq Require Import List String Bool.\nFrom BV Require Import Model.PyBase Model.Estim Gen.NegLike Proofs.EstimP.\n'
+               'Open Scope string_scope.\n')
+        for i in range(0, len(items), Bsz):
+            files[f'plumb_{i // Bsz}'] = (hdr + PLUMB_CHK + 'Definition cases := ' + coq_list(items[i:i + Bsz], ';\n') +
+                                          '.\nEval vm_compute in (List.map chk cases).\n')
+        outs = ctx.coq_eval_many(files)
+        for k in sorted(files, key=lambda s: int(s.rsplit('_', 1)[1])):
+            ok, out = outs[k]
+            i0 = int(k.rsplit('_', 1)[1]) * Bsz
+            n_here = len(items[i0:i0 + Bsz])
+            if not ok:
+                ctx.stream_broken('plumbing', 'model evaluation failed: ' + out[-600:])
+                continue
+            bs = parse_bools(out)
+            if len(bs) != n_here:
+                ctx.stream_broken('plumbing', f'could not parse model output ({len(bs)} results for {n_here} cases)')
+                continue
+            for j, b in enumerate(bs):
+                if not b:
+                    st.disagree(icases[i0 + j], 'expected_call (generated tables) differs from the recorded call', ires[i0 + j])
+    if st.disagreements:
+        d = st.disagreements[0]
+        ctx.stream_broken('plumbing', f'{len(st.disagreements)} disagreements, first: ' + json.dumps(d, default=str)[:1500])
+    # the property oracles apply to these estimations as well
+    evaluate(ctx, None, problems, runs, results)
+
+
+# ============================================================================ driver
+GENERATORS = (('NegLike', gen_all),)
+
+
+def run(ctx):
+    ctx.assumptions += ASSUME
+    ctx.trusted += [
+        'tie A: /verif/lib/py2v with the subclass NLTranslator of lib/props/C07.py (unary minus on vectors / matrices, narrowing of '
+        '`if self.x is None: raise`) for NegativeLikelihood._f/_f_g/_f_g_h; specialised fail-closed ast extractors of lib/props/C07.py '
+        'for optimization.algorithms, the wrappers (routine called, fct / init_betas / bounds handed on, parameters[...] -> keyword), '
+        '_set_algorithm_parameters, _set_function_parameters, optimize, the main path of estimate, RawResults.__init__, '
+        'default_parameters (name, section).  The generated tables are validated on every run against recorded calls (stream plumbing)',
+        'the hand-written model Model/Estim.v of estimate/optimize/write-back (tied by the static skeleton theorems T07h and by '
+        'the streams), the harness: problem generator, numpy reference evaluation of the logit likelihood, oracles of stream estimate',
+        'EXTERNAL and only sampled: biogeme_optimization (line search, trust region, simple bounds), scipy.optimize.minimize '
+        '(L-BFGS-B), the base class FunctionToMinimize; the calculation engine cythonbiogeme (subject of C01/C02/C04)',
+    ]
+    try:
+        gen_all(ctx)
+    except Untranslatable as e:
+        ctx.tie_broken('py2v:NegLike', str(e))
+    br = ctx.build()
+    stream_plumbing(ctx, with_model=br.ok)
+    stream_estimate(ctx)
+    if ctx.broken and not ctx.violations:
+        # failing-input search: something no longer checks.  The oracles of stream `estimate` do not depend on the
+        # generated tables (the list of algorithms supporting bounds is the pinned one of T07d): evaluate them on more inputs.
+        saved = len(ctx.broken)
+        old = ctx.seed
+        try:
+            for k in range(ctx.n(2, 4)):
+                ctx.seed = f'{old}-search{k}'
+                stream_estimate(ctx, n_problems=ctx.n(10, 60), name='estimate')
+                if ctx.violations:
+                    break
+        finally:
+            ctx.seed = old
+        del ctx.broken[saved:]
+
+
+def replay(ctx, path):
+    w = json.load(open(path))
+    wit = w.get('witness') if 'witness' in w else w
+    if not isinstance(wit, dict) or 'problem' not in wit or 'runs' not in wit:
+        print('replay: this file names an obligation/stream; re-run ./check C07')
+        return 2
+    stream_estimate(ctx, only=[wit])
+    bad = bool(ctx.violations)
+    print(json.dumps({'key': w.get('key'), 'still_fails': bad,
+                      'violations': [{'key': v['key'], 'what': v['what'][:300]} for v in ctx.violations[:4]]}))
+    import shutil
+    shutil.rmtree(ctx.scratch, ignore_errors=True)
+    return 1 if bad else 0
